@@ -78,6 +78,12 @@ CLAIMED = {
         "stateful property testing with an explicit reference ledger built from observed transfers",
         "DESIGN.md §4 C12",
     ),
+    "C13": (
+        "Two searches: (a) calculate_weight through the hook over the whole allowed rectangle (amount 1..2^100, duration 86400..31556926) with neighbours in both directions: weight >= amount, monotone in amount and duration, defined inside and rejected outside the range; (b) model-based histories on the real incentive contract with four users, amounts up to 2^100, four durations, up to three concurrent native/cw20 flows with expansions, permissionless snapshots placed anywhere in the epoch (before, between, after position changes, or missing) and >= 20 epochs: after every step raw GLOBAL_WEIGHT == sum of raw ADDRESS_WEIGHT, the current epoch's address weights reported by the share query sum to <= the snapshot, a second claim in an epoch pays nothing, a claim's payout per flow is bounded by the flow's emissions over the claimed epochs (recomputed from raw flow state), and a successful claim pays exactly what the Rewards query returned immediately before.",
+        "Raw storage is read for the weight items and flows; emissions recomputed with the documented formula. Epoch clock = the repository's fee-distributor mock.",
+        "property-based testing of the pure weight function + stateful/model-based histories with snapshot-placement schedules",
+        "DESIGN.md §4 C13",
+    ),
     "C02": (
         "Generated-input search (proptest, 16 deterministic shards) over the whole documented domain [1,2^128)^3 x valid fee triples x decimals, judged against an independent exact 1024-bit reference: gross floor, fee floors, strict bound, totality inside the 128-bit domain, there-and-back with the case's fees and with zero fees, gross monotone in the offer. Exploration, not proof: millions of cases per quick run, hundreds of millions thorough, with boundary constants and extreme-ratio shapes weighted in.",
         "Trusts refmath.rs (bnum integers, self-tested at start-up) and that commands::swap / queries::query_simulation call the hooked compute_swap (cross-checked by C14). A panic is an abort.",
